@@ -11,11 +11,12 @@ type Plan struct {
 	Arm     string `json:"arm"`    // clean | faults | ...
 	Knobs   Knobs  `json:"knobs"`
 
-	Router  *RouterPlan  `json:"router,omitempty"`
-	Xport   *XportPlan   `json:"xport,omitempty"`
-	Limiter *LimiterPlan `json:"limiter,omitempty"`
-	Addr    []AddrCase   `json:"addr,omitempty"`
-	Auth    []AuthCase   `json:"auth,omitempty"`
+	Router   *RouterPlan   `json:"router,omitempty"`
+	Xport    *XportPlan    `json:"xport,omitempty"`
+	Limiter  *LimiterPlan  `json:"limiter,omitempty"`
+	Addr     []AddrCase    `json:"addr,omitempty"`
+	Auth     []AuthCase    `json:"auth,omitempty"`
+	LateDial *LateDialPlan `json:"late_dial,omitempty"`
 
 	// Expect, when set by a seeded-defect demonstration or a known finding,
 	// is informational only.
@@ -327,4 +328,16 @@ type AuthCase struct {
 	Profile string `json:"profile"` // certificate the server presents
 	Option  string `json:"option"`  // ca | none | skip
 	ByName  bool   `json:"by_name"`
+}
+
+// LateDialPlan: a transport built directly over an injected dialer whose
+// dials complete after a delay regardless of their context (C18).
+type LateDialPlan struct {
+	Kind          string  `json:"kind"` // reuse | pipeline | quic
+	DialDelayUs   []int64 `json:"dial_delay_us"`
+	DialTimeoutUs int64   `json:"dial_timeout_us"`
+	CallAtUs      []int64 `json:"call_at_us"`
+	CallLimitUs   int64   `json:"call_limit_us"`
+	CloseAtUs     int64   `json:"close_at_us"`
+	SecondClose   bool    `json:"second_close,omitempty"`
 }
